@@ -16,8 +16,8 @@ RULE = ("Monitor 1 (activation tap): every scan_node activation receives depth_l
         "distinct_nontrivial = distinct cases with a non-empty result.")
 ASSUMPTIONS = ["pairs are only compared when the hit stream of the k-run is well formed"]
 EXPECTED_WALL = {"quick": 60, "thorough": 500}
-REQUIRED = {"c07_pairs": 10000, "c07_pairs_strictly_larger": 1000, "c07_scans_cut_by_limit": 1000, "c07_k<=0": 100,
-            "c07_searches_level>=1": 1000, "real_scans": 300}
+REQUIRED = {"c07_pairs": 1250, "c07_pairs_strictly_larger": 125, "c07_scans_cut_by_limit": 125, "c07_k<=0": 12,
+            "c07_searches_level>=1": 125, "real_scans": 37}
 
 
 def plan(tier, seed):
